@@ -419,6 +419,10 @@ def memcheck_pass(ctx, mc_cfgs):
     """the machine harness under valgrind memcheck, the memory an instance is built over marked indeterminate ("no read
     of an indeterminate value", C18; "never of the prior contents of the memory", C17): a never-initialised member or
     stack temporary that is later read is reported at the read, whatever byte happens to be there"""
+    import shutil
+    if shutil.which("valgrind") is None or not os.path.exists("/usr/include/valgrind/memcheck.h"):
+        ctx.extra["memcheck"] = "valgrind (or its client-request header) is not installed: pass skipped"
+        return
     def memcheck_one(cfg):
         exe, logtxt = MM.build(cfg, memcheck=True)
         if exe is None:
